@@ -134,3 +134,51 @@ Print Assumptions C15_reset_refused_during_run_refuted.
 Print Assumptions C15_reset_during_run_partial.
 Print Assumptions C15_accepted_run_implies_idle.
 Print Assumptions C15_example_history_nonvacuous.
+
+(** ---- tie of the serialisation assumed by the model to nextline/imp.py + nextline/main.py ----
+    Gen/ImpSkeleton.v is REGENERATED from the source by translate/imp_skeleton.py at every check;
+    Life/ImpTie.v interprets it ([exec]: an oracle decides at every await whether it raises and
+    the value of every untracked condition).  All statements are for every oracle. *)
+From Coq Require Import String.
+From NL Require Import Life.ImpSyntax Gen.ImpSkeleton Life.ImpTie.
+
+(** every machine trigger (run, reset, aopen, aclose) of every method of Imp and of Nextline,
+    run_session / run_continue_and_wait included, happens while the ONE lock is held *)
+Theorem C15_tie_lock_discipline : forall ob m, In m (names ob) -> forall st cl o,
+  let x := exec ob m st cl o in
+  res_of x <> RBad /\ lock_ok false (trace_of x) = true /\ lk_held (cfg_of x) = false.
+Proof. exact lock_discipline. Qed.
+
+(** the API calls that ask for the lock in the code are exactly those for which [do_call] goes
+    through [acquire] (queues when the lock is busy), for every value of the two flags *)
+Theorem C15_tie_lock_set : forall c m st cl, In m (nl_methods_of c) ->
+  code_acquires st cl m = model_acquires st cl c /\ code_may_acquire st cl m = model_acquires st cl c.
+Proof. exact lock_set_agrees. Qed.
+
+(** each API call fires the trigger whose transition the model puts it in *)
+Theorem C15_tie_call_trigger : forall c m, In m (nl_methods_of c) ->
+  code_first_trigger true false m = model_first_trigger st_initialized c /\
+  (c = CStart \/ c = CClose -> code_first_trigger false false m = model_first_trigger st_created c).
+Proof. exact call_trigger_agrees. Qed.
+
+(** no method of Nextline touches the machine / lock / broker close itself; in Imp they occur
+    only inside `async with self._lock`; one lock; the flags start False *)
+Theorem C15_tie_only_through_imp :
+  forallb (fun x => no_direct (snd x)) nextline_methods = true /\
+  forallb flag_sets_ok nextline_methods = true /\
+  forallb (fun x => locked_text false (snd x)) imp_methods = true /\
+  imp_locks = ["_lock"%string] /\
+  (forall a b c d, nextline_init_flags =
+     [(FStarted, nl_started (init_state a b c d)); (FClosed, nl_closed (init_state a b c d))]).
+Proof. exact nextline_reaches_machine_only_through_imp. Qed.
+
+(** the remaining methods of Nextline are no lifecycle requests in any execution *)
+Theorem C15_tie_other_methods_inert : forall m, In m (names ONextline) -> mem m api_names = false ->
+  forall st cl o, forallb inert_ev (trace_of (exec ONextline m st cl o)) = true.
+Proof. exact other_methods_inert. Qed.
+
+Print Assumptions C15_tie_lock_discipline.
+Print Assumptions C15_tie_lock_set.
+Print Assumptions C15_tie_call_trigger.
+Print Assumptions C15_tie_only_through_imp.
+Print Assumptions C15_tie_other_methods_inert.
